@@ -18,7 +18,7 @@ def index_field(F):
     adt = F.adts.get("reader::ShapeIterator")
     if not adt:
         return None
-    c = [x["name"] for x in adt["variants"][0]["fields"] if "ShapeIndex" in x["ty"] and x["ty"].startswith("std::option::Option<")]
+    c = [x["name"] for x in adt["variants"][0]["fields"] if x["ty"].startswith("std::option::Option<std::slice::Iter<")]
     return c[0] if len(c) == 1 else None
 
 
@@ -153,11 +153,21 @@ def run(ctx):
     from .C20 import REORDER
     touch = []
     for g in F.identity_fns():
-        if not g["def"].startswith("reader::"):
-            continue
         tys = " ".join(l["ty"] for l in g["locals"])
         if "ShapeIndex" in tys:
             touch.append(g)
+    # functions handling the element type of the reader's index, wherever they live
+    idx_elem = None
+    radt = F.adts.get("reader::ShapeReader")
+    if radt:
+        for x in radt["variants"][0]["fields"]:
+            m = __import__("re").match(r"std::option::Option<std::vec::Vec<(.+)>>$", x["ty"])
+            if m:
+                idx_elem = m.group(1)
+    if idx_elem:
+        for g in F.identity_fns():
+            if g not in touch and any(idx_elem in l["ty"] for l in g["locals"]):
+                touch.append(g)
     for g in touch:
         bad = [mir.callee_decl(t) for b, t in mir.calls(g) if mir.callee_decl(t) in REORDER]
         ctx.ob("C14.order", g["def"], not bad, "reordering / dropping calls: %s" % sorted(set(bad)), site=ctx.site_of(F, g["def"]),
